@@ -114,9 +114,47 @@ func (g *Gen) genC12(n int) error {
 		g.alias(o, s)
 		g.thesQueries(o, true)
 		g.emit("close %s", o)
+		if i%6 == 2 {
+			g.mirroredThesCase()
+		}
 		g.st("case")
 	}
 	return nil
+}
+
+// mirroredThesCase: two batches of the same shape in which the definitions sit on swapped documents
+// (so that everything lies at the same byte offsets in both segments); one list object and one
+// iterator are carried from lookups in the first segment to lookups in the second and back.
+func (g *Gen) mirroredThesCase() {
+	g.emit("cfg chunkmode=1026")
+	var segs []string
+	for k := 0; k < 2; k++ {
+		b := &BatchSpec{Name: g.fresh("b")}
+		for d := 0; d < 2; d++ {
+			id := []byte(fmt.Sprintf("mir%d", d))
+			doc := DocSpec{ID: id, Plain: false}
+			doc.Fields = append(doc.Fields, FieldSpec{Kind: "fld", Name: "_id", Typ: 't', Stored: true, Len: 1, Val: id, Toks: []TokSpec{{Term: id, Freq: 1}}})
+			lhs := []string{"a", "b"}[(d+k)%2]
+			doc.Fields = append(doc.Fields, FieldSpec{Kind: "syn", Name: "thesA", Defs: []SynDef{{LHS: []byte(lhs), RHS: [][]byte{[]byte("x")}}}})
+			b.Docs = append(b.Docs, doc)
+		}
+		g.emitBatch(b)
+		s := g.fresh("s")
+		g.emit("build %s %s", s, b.Name)
+		g.newBuilt(s, b)
+		segs = append(segs, s)
+	}
+	sl, si := g.fresh("l"), g.fresh("i")
+	for r := 0; r < 3; r++ {
+		for _, t := range []string{"a", "b"} {
+			for _, seg := range segs {
+				g.emit("q thes %s thesA %s ex=nil sl=%s si=%s", seg, hx([]byte(t)), sl, si)
+				g.emit("q thes %s thesA %s ex=0 sl=%s si=%s", seg, hx([]byte(t)), sl, si)
+			}
+		}
+	}
+	g.emit("cfg chunkmode=%d", g.curMode)
+	g.st("thes.mirrored")
 }
 
 func (g *Gen) genC13(n int) error {
@@ -148,6 +186,34 @@ func (g *Gen) genC10(n int) error {
 	for i := 0; i < n; i++ {
 		g.emit("note case %d", i)
 		g.setMode()
+		if i%97 == 9 {
+			// a name that is a synonym source in one batch is an ordinary field in the next (and back)
+			for r := 0; r < 2; r++ {
+				for kind := 0; kind < 2; kind++ {
+					b := &BatchSpec{Name: g.fresh("b")}
+					for d := 0; d < 2; d++ {
+						id := []byte(fmt.Sprintf("%s-%d", b.Name, d))
+						doc := DocSpec{ID: id, Plain: kind == 1}
+						doc.Fields = append(doc.Fields, FieldSpec{Kind: "fld", Name: "_id", Typ: 't', Stored: true, Len: 1, Val: id, Toks: []TokSpec{{Term: id, Freq: 1}}})
+						if kind == 0 {
+							doc.Fields = append(doc.Fields, FieldSpec{Kind: "syn", Name: "palette", Defs: []SynDef{{LHS: []byte("red"), RHS: [][]byte{[]byte("crimson")}}}})
+						} else {
+							doc.Fields = append(doc.Fields, FieldSpec{Kind: "fld", Name: "palette", Typ: 't', Len: 2, DV: true,
+								Toks: []TokSpec{{Term: []byte("red"), Freq: 1}, {Term: []byte("blue"), Freq: 1, Locs: []LocSpec{{Pos: 2, Start: 4, End: 8}}}}})
+						}
+						b.Docs = append(b.Docs, doc)
+					}
+					g.emitBatch(b)
+					s := g.fresh("s")
+					g.emit("build %s %s", s, b.Name)
+					g.newBuilt(s, b)
+					g.dumpAll(s)
+				}
+			}
+			g.st("seq.namereuse")
+			g.st("case")
+			continue
+		}
 		if i%97 == 4 {
 			// batches whose doc values need different numbers of chunks, built one after the other
 			var segs []string
@@ -356,6 +422,22 @@ func (g *Gen) genC11(n int) error {
 				g.emit("endpar")
 			}
 		}
+		if ths := sortedFieldNames(g.univ[o].Thes); len(ths) > 0 {
+			// two holders: one looks up and leaves with Close, the other goes on reading the thesaurus
+			g.emit("ref addref %s", o)
+			for _, th := range ths {
+				g.emit("q thesterms %s %s probe=-", o, th)
+			}
+			g.emit("ref close %s", o)
+			for _, th := range ths {
+				g.emit("q thesterms %s %s probe=-", o, th)
+				for _, t := range sortedKeys(g.univ[o].Thes[th]) {
+					g.emit("q thes %s %s %s ex=nil", o, th, hx([]byte(t)))
+				}
+			}
+			g.emit("merge %s segs=%s drops=nil", g.fresh("pf"), o)
+			g.emit("ref refs %s", o)
+		}
 		g.emit("close %s", o)
 		g.st("case")
 	}
@@ -458,6 +540,31 @@ func (g *Gen) genC18(n int) error {
 		g.emit("note case %d", i)
 		g.emit("cfg mergebuf=%d", []int{16, 64, 4096}[g.r.Intn(3)])
 		g.setMode()
+		if i == 5 {
+			// more than 1024 merged documents with doc values: chunks are flushed in the middle of
+			// the doc-value pass, so the channel can close there too
+			g.emit("cfg mergebuf=4096")
+			var segs []string
+			for k := 0; k < 2; k++ {
+				b := &BatchSpec{Name: g.fresh("b")}
+				for d := 0; d < 700; d++ {
+					id := []byte(fmt.Sprintf("%s-%d", b.Name, d))
+					doc := DocSpec{ID: id, Plain: true}
+					doc.Fields = append(doc.Fields, FieldSpec{Kind: "fld", Name: "_id", Typ: 't', Stored: true, Len: 1, Val: id, Toks: []TokSpec{{Term: id, Freq: 1}}})
+					doc.Fields = append(doc.Fields, FieldSpec{Kind: "fld", Name: "tag", Typ: 't', Len: 1, DV: true, Toks: []TokSpec{{Term: []byte(fmt.Sprintf("t%d", d%5)), Freq: 1}}})
+					b.Docs = append(b.Docs, doc)
+				}
+				g.emitBatch(b)
+				sg := g.fresh("s")
+				g.emit("build %s %s", sg, b.Name)
+				g.newBuilt(sg, b)
+				segs = append(segs, sg)
+			}
+			g.emit("mergecancel %s segs=%s drops=3|nil max=%d tailfull=%d", g.fresh("f"), strList(segs), g.tierN(150, 20000), g.tierN(900, 3000))
+			g.st("cancel.bigdv")
+			g.st("case")
+			continue
+		}
 		s1, _ := g.smallSegForFaults()
 		s2, _ := g.smallSegForFaults()
 		mf := g.fresh("f")
@@ -658,6 +765,38 @@ func (g *Gen) genC20(n int) error {
 			g.emit("endpar")
 			g.emit("ref mapped %s", o)
 		}
+	}
+	// the helper that looks a thesaurus address up takes no reference of its own, whatever the name is
+	for c := 0; c < 3; c++ {
+		g.emit("note case thesaddr%d", c)
+		o := g.fresh("o")
+		g.emit("open %s %s", o, f)
+		g.alias(o, s)
+		g.emit("ref addref %s", o)
+		for _, nm := range append(sortedFieldNames(g.univ[s].Fields), "nosuchname", "thesA", "_id") {
+			g.emit("q thesaddr %s %s", o, nm)
+		}
+		g.emit("ref refs %s", o)
+		g.emit("ref decref %s", o)
+		g.emit("ref close %s", o)
+		g.emit("ref mapped %s", o)
+	}
+	// the mapping is taken away behind the segment's back: the final release reports the failed
+	// munmap, and still closes the file
+	for c := 0; c < 3; c++ {
+		g.emit("note case sabotage%d", c)
+		o := g.fresh("o")
+		fs := g.fresh("f")
+		g.emit("persist %s %s", s, fs)
+		g.emit("open %s %s", o, fs)
+		g.alias(o, s)
+		g.emit("ref addref %s", o)
+		g.emit("q count %s", o)
+		g.emit("ref sabotage %s", o)
+		g.emit("ref decref %s", o)
+		g.emit("ref mapped %s", o)
+		g.emit("ref %s %s", []string{"close", "decref", "close"}[c], o)
+		g.emit("ref mapped %s", o)
 	}
 	// opened segments as inputs of a merge: the merge neither keeps nor drops a reference of its inputs
 	fcopy := g.fresh("f") // a second file with the same content (mappings are counted per path)
